@@ -17,6 +17,7 @@ import (
 
 	"github.com/echovault/sugardb/internal"
 	sraft "github.com/echovault/sugardb/internal/raft"
+	"github.com/echovault/sugardb/verifrt"
 	hraft "github.com/hashicorp/raft"
 )
 
@@ -415,4 +416,18 @@ func (server *SugarDB) VerifCommandSync() map[string]bool {
 		}
 	}
 	return out
+}
+
+// VerifEmbeddedTake returns what the server has sent to the embedded subscriber registered under tag (ok=false when the
+// tag has no pipe).  Under instrumentation the pipe is verifrt.NetPipe, whose writes never block.
+func VerifEmbeddedTake(tag string) ([]byte, bool) {
+	c, ok := connections.Load(tag)
+	if !ok {
+		return nil, false
+	}
+	pe, ok := (*c.(conn).readConn).(*verifrt.PipeEnd)
+	if !ok {
+		return nil, false
+	}
+	return pe.Take(), true
 }
